@@ -128,7 +128,7 @@ def eval_case(case):
         for di, data in enumerate(datasets):
             for kind in ("free", 0.0, 1.0 / 3.0, 1.0, 2.7):
                 problems = {}
-                bound_opts = ["suggested", "poi_low"] + (["tight"] if counting and kind == "free" else [])
+                bound_opts = ["suggested", "poi_low"] + (["tight"] if counting and kind == "free" else []) + (["nuis_tight"] if nuis_idx else [])
                 for bopt in bound_opts:
                     bounds = list(sugg_bounds)
                     if bopt == "poi_low":
@@ -137,6 +137,12 @@ def eval_case(case):
                         if not counting:
                             continue
                         bounds[pidx] = (-5.0, 10.0)
+                    if bopt == "nuis_tight":
+                        # caller-supplied nuisance bounds that are active at the optimum: a narrow window just off the suggested initial value
+                        for j in nuis_idx:
+                            lo_, hi_ = sugg_bounds[j]
+                            c0 = sugg_init[j]
+                            bounds[j] = (max(lo_, c0 + 0.002), min(hi_, c0 + 0.012))
                     if bopt == "tight":
                         muhat_ref = float(mdl.fit(data, (0, 10))[0])
                         if muhat_ref < 0.2:
@@ -215,7 +221,7 @@ def eval_case(case):
                     fun0, x0, ctx0, init, bounds, fixed = runs[0]
                     comp = [("other configuration", best)]
                     free = [i for i in range(cfg.npars) if not fixed[i] and not (kind != "free" and i == pidx)]
-                    if counting and mask == "none":
+                    if counting and mask == "none" and bopt != "nuis_tight":
                         if kind == "free":
                             mh, g, v = mdl.fit(data, bounds[pidx])
                         else:
@@ -244,13 +250,13 @@ def eval_case(case):
                     for fun, x, ctx, *_ in runs:
                         ncmp += 1
                         if not fun <= cbest[1] + tol:
-                            issues.append(C.issue(f"C05:optimality:{opt}" + (":optimum_on_poi_bound" if bopt == "tight" else ""), f"objective {fun!r} is beaten by {cbest[0]} with {cbest[1]!r} (gap {fun - cbest[1]:.3g} > tol {tol})", **ctx))
+                            issues.append(C.issue(f"C05:optimality:{opt}" + (":optimum_on_bound" if bopt in ("tight", "nuis_tight") else ""), f"objective {fun!r} is beaten by {cbest[0]} with {cbest[1]!r} (gap {fun - cbest[1]:.3g} > tol {tol})", **ctx))
                             break
-                    if counting and mask == "none":
+                    if counting and mask == "none" and bopt != "nuis_tight":
                         v = dict(comp)["closed form"]
                         for fun, x, ctx, *_ in runs:
                             if not abs(fun - v) <= tol:
-                                issues.append(C.issue(f"C05:closed_form:{opt}" + (":optimum_on_poi_bound" if bopt == "tight" else ""), f"objective {fun!r}, closed-form optimum {v!r}", **ctx))
+                                issues.append(C.issue(f"C05:closed_form:{opt}" + (":optimum_on_bound" if bopt in ("tight", "nuis_tight") else ""), f"objective {fun!r}, closed-form optimum {v!r}", **ctx))
                                 break
                     dig.append(round(best, 2))
     finally:
